@@ -53,7 +53,8 @@ RULE = ("case = one static configuration (parameter pytree shape, loss structure
         "sizes, n, jit-wrapped or plain call) x several data variations (initial values, coefficients, PRNG seeds); "
         "resume cases run n then m iterations from the returned (params, opt_state, data) and are judged alone and "
         "concatenated against a single reference run of n+m; non-trivial = n >= 2, at least two distinct batches were "
-        "trained on, the parameters moved and the loss history is not constant")
+        "trained on, the parameters moved and the loss history is not constant"
+        " Plus: non-stopping validation modules with full tracking, verbose mode, +infinity in a parameter leaf no term reads (finite stand-in in the model), and a probe flavour without model: the compiled solve against the harness's own textbook loop on real LossPDEStatio / LossPDENonStatio with CubicMesh + parameter / observation generators, in x64 and in the default precision (rounding rule).")
 ASSUMPTIONS = [
     "jax.value_and_grad returns the derivative of the (polynomial) loss; optax sgd/trace/schedule compute the documented "
     "updates (instantiated symbolically in JinnsModel/SolveFamily.lean, validated by every exact run)",
